@@ -50,16 +50,19 @@ CONSTANTS Tasks,          \* task ids
           Queries,        \* query ids (integers)
           Deps,           \* function query -> sequence of dependencies (acyclic)
           Roots,          \* function task -> query it requests
-          SubscribeLate   \* mutation switch (FALSE = as coded)
+          SubscribeLate,  \* mutation switch (FALSE = as coded)
+          MaxAbandon,     \* how many requests may be abandoned (future dropped / executor panic)
+          SilentAbandon   \* mutation switch: an abandoned computation does not wake its waiters
 
 VARIABLES stack,      \* task -> sequence of frames, top = last
           verified,   \* set of queries verified in this epoch
           computing,  \* set of queries that have a computing entry
           owner,      \* query -> task that executes it (for SingleFlight)
           sub,        \* query -> set of tasks subscribed to the entry's Notify
-          execs       \* query -> number of executor runs (once per epoch)
+          execs,      \* query -> number of executor runs (once per epoch)
+          abandoned   \* number of abandoned requests so far
 
-vars == <<stack, verified, computing, owner, sub, execs>>
+vars == <<stack, verified, computing, owner, sub, execs, abandoned>>
 
 None == -1
 Frame(q, pc) == [q |-> q, pc |-> pc, i |-> 1]
@@ -75,6 +78,7 @@ Init ==
     /\ owner = [q \in Queries |-> None]
     /\ sub = [q \in Queries |-> {}]
     /\ execs = [q \in Queries |-> 0]
+    /\ abandoned = 0
 
 Active(t) == Len(stack[t]) > 0
 
@@ -88,14 +92,14 @@ Start(t) ==
             ELSE /\ sub' = [sub EXCEPT ![q] = @ \cup {t}]
                  /\ stack' = SetTop(t, [Top(t) EXCEPT !.pc = "scc_wait"])
        ELSE /\ stack' = SetTop(t, [Top(t) EXCEPT !.pc = "fast"]) /\ UNCHANGED sub
-    /\ UNCHANGED <<verified, computing, owner, execs>>
+    /\ UNCHANGED <<verified, computing, owner, execs, abandoned>>
 
 (* mutation only: the Notified future is created after the lock was dropped *)
 LateSubscribe(t) ==
     /\ Active(t) /\ Top(t).pc \in {"scc_sub", "lock_sub"}
     /\ sub' = [sub EXCEPT ![Top(t).q] = @ \cup {t}]
     /\ stack' = SetTop(t, [Top(t) EXCEPT !.pc = IF Top(t).pc = "scc_sub" THEN "scc_wait" ELSE "lock_wait"])
-    /\ UNCHANGED <<verified, computing, owner, execs>>
+    /\ UNCHANGED <<verified, computing, owner, execs, abandoned>>
 
 (* woken by notify_waiters *)
 Woken(t) ==
@@ -104,7 +108,7 @@ Woken(t) ==
     \* exit_scc returns and query_for goes on to the fast path; a failed
     \* computing_lock_guard makes query_for start its loop over
     /\ stack' = SetTop(t, [Top(t) EXCEPT !.pc = IF Top(t).pc = "scc_wait" THEN "fast" ELSE "start"])
-    /\ UNCHANGED <<verified, computing, owner, sub, execs>>
+    /\ UNCHANGED <<verified, computing, owner, sub, execs, abandoned>>
 
 (* One critical section of the code: query_for takes the read snapshot of   *)
 (* the query (which excludes set_computed of the same query), tries the     *)
@@ -115,7 +119,7 @@ FastHit(t) ==
     /\ Active(t) /\ Top(t).pc = "fast"
     /\ Top(t).q \in verified
     /\ stack' = Pop(t)                      \* value returned to the caller frame
-    /\ UNCHANGED <<verified, computing, owner, sub, execs>>
+    /\ UNCHANGED <<verified, computing, owner, sub, execs, abandoned>>
 
 FastMiss(t) ==
     /\ Active(t) /\ Top(t).pc = "fast"
@@ -131,7 +135,7 @@ FastMiss(t) ==
                /\ owner' = [owner EXCEPT ![q] = t]
                /\ stack' = SetTop(t, [Top(t) EXCEPT !.pc = "exec"])
                /\ UNCHANGED sub
-    /\ UNCHANGED <<verified, execs>>
+    /\ UNCHANGED <<verified, execs, abandoned>>
 
 Fast(t) == FastHit(t) \/ FastMiss(t)
 
@@ -143,12 +147,12 @@ Exec(t) ==
        THEN /\ stack' = [stack EXCEPT ![t] =
                           Append([@ EXCEPT ![Len(@)] = [f EXCEPT !.i = f.i + 1]],
                                  Frame(Deps[f.q][f.i], "start"))]
-            /\ UNCHANGED <<verified, execs>>
+            /\ UNCHANGED <<verified, execs, abandoned>>
        ELSE \* the executor returned: set_computed
             /\ stack' = SetTop(t, [f EXCEPT !.pc = "publish"])
             /\ verified' = verified \cup {f.q}
             /\ execs' = [execs EXCEPT ![f.q] = @ + 1]
-    /\ UNCHANGED <<computing, owner, sub>>
+    /\ UNCHANGED <<computing, owner, sub, abandoned>>
 
 Publish(t) ==
     /\ Active(t) /\ Top(t).pc = "publish"
@@ -157,11 +161,30 @@ Publish(t) ==
        /\ owner' = [owner EXCEPT ![q] = None]
        /\ sub' = [sub EXCEPT ![q] = {}]          \* notify_waiters
     /\ stack' = SetTop(t, [Top(t) EXCEPT !.pc = "start"])
+    /\ UNCHANGED <<verified, execs, abandoned>>
+
+(* The request of task t is abandoned while its innermost executor is       *)
+(* suspended: the caller dropped the future (cancellation) or the executor  *)
+(* panicked.  Unwinding drops the ComputingLockGuard of every query the     *)
+(* task was executing: Drop calls done(), i.e. the entry is removed and its *)
+(* subscribers are woken; nothing is published (the queries stay           *)
+(* unverified) and some other task has to compute them again.              *)
+Owned(t) == {stack[t][k].q : k \in {j \in 1..Len(stack[t]) : stack[t][j].pc = "exec"}}
+Abandon(t) ==
+    /\ abandoned < MaxAbandon
+    /\ Active(t) /\ Top(t).pc = "exec"
+    /\ computing' = computing \ Owned(t)
+    /\ owner' = [q \in Queries |-> IF q \in Owned(t) THEN None ELSE owner[q]]
+    /\ sub' = IF SilentAbandon THEN sub
+              ELSE [q \in Queries |-> IF q \in Owned(t) THEN {} ELSE sub[q]]
+    /\ stack' = [stack EXCEPT ![t] = <<>>]
+    /\ abandoned' = abandoned + 1
     /\ UNCHANGED <<verified, execs>>
 
-Next == \E t \in Tasks : Start(t) \/ LateSubscribe(t) \/ Woken(t) \/ Fast(t) \/ Exec(t) \/ Publish(t)
+Next == \E t \in Tasks : Abandon(t) \/ Start(t) \/ LateSubscribe(t) \/ Woken(t) \/ Fast(t) \/ Exec(t) \/ Publish(t)
 
 Spec == Init /\ [][Next]_vars
+\* abandoning is never forced
 FairSpec == Spec /\ \A t \in Tasks : WF_vars(Start(t) \/ LateSubscribe(t) \/ Woken(t) \/ Fast(t) \/ Exec(t) \/ Publish(t))
 
 (* C02: one query key is never executed by two tasks at once *)
